@@ -22,6 +22,8 @@ claimed={
         "Reference grammar (harness/h/refparse.go) is the oracle; constructs not in it (chained indexing, comma before by) carry no claim."),
  "C05":("Every compiling token sequence within the bound, the seed programs with arbitrary corruptions and name-collision shapes are compiled by the real compiler; the emitted text (with symbolic bytes where names are arbitrary) is lexed by two independent SQL lexers and parsed by an independent statement parser: one statement, one final semicolon, no comment or unterminated token, [WITH ...] SELECT shape, every FROM/JOIN source a PQL table or an earlier CTE, generated names unique, every CTE used.",
         "SQL lexers/parser in harness/h are the oracle."),
+ "C04":("At 19 positions where literal or name content can occur, the content is a vector of free bytes run through the real lexer, parser and compiler; the emitted SQL (containing those symbolic bytes) must lex, under both standard and ClickHouse rules, to the same token kinds as the same skeleton with benign content, with every other token byte-identical, no comment or unterminated token, and the content-derived token must decode under ClickHouse rules to exactly the PQL value.",
+        "Nothing stubbed. SQL lexers in harness/h/sqllex.go are the oracle."),
 }
 checks=[]
 for p in props:
